@@ -206,7 +206,8 @@ fn free_running(run: &Run) {
 /// contains no unsafe / static mut / interior mutability (reported, never a violation).
 fn scan_assumption(run: &Run) {
     let mut hits = vec![];
-    let mut stack = vec![std::path::PathBuf::from("/repo/src")];
+    let root = std::env::var("VERIF_REPO").unwrap_or_else(|_| "/repo".into());
+    let mut stack = vec![std::path::PathBuf::from(format!("{root}/src"))];
     while let Some(d) = stack.pop() {
         for e in std::fs::read_dir(&d).into_iter().flatten().flatten() {
             let p = e.path();
@@ -222,7 +223,7 @@ fn scan_assumption(run: &Run) {
                 let body = body.split("#[cfg(feature = \"verif-hooks\")]\npub mod verif").next().unwrap_or("");
                 for tok in ["unsafe ", "static mut", "RefCell<", "Cell<", "Mutex<", "RwLock<", "AtomicU", "AtomicBool", "lazy_static", "OnceCell", "thread_local!"] {
                     if body.contains(tok) {
-                        hits.push(format!("{}: {}", name.trim_start_matches("/repo/"), tok.trim()));
+                        hits.push(format!("{}: {}", name.trim_start_matches(root.as_str()).trim_start_matches('/'), tok.trim()));
                     }
                 }
             }
